@@ -135,6 +135,52 @@ def correspondence(rep, ctx):
             if abs(x - y) > Fraction(1, 10**12) * max(abs(x), abs(y)) and max(abs(x), abs(y)) > Fraction(1, 10**290):
                 fail("hp-time-additivity", desc, f"{nm}: {a[nm]!r} vs {b[nm]!r}")
                 break
+    # ---------------- the laws on synthetic datasets (loaded through load_dataset(dir_path=…)): every derived inventory must
+    #                  stay bound to ITS dataset, and scaling / adding / splitting commute with decay there too
+    import synthetic
+    for k_ in range(6 if thorough else 2):
+        ds, sch, path = synthetic.build(rd, view, r, f"c07_{ctx.seed}_{k_}")
+        try:
+            sview = DatasetView(ds)
+            radio = [i for i in range(sview.n) if sview.rate[i] != 0]
+            for _ in range(4):
+                picks = r.sample(range(sview.n), min(sview.n, r.choice([1, 2, 3])))
+                cx = {sview.names[i]: 10.0 ** r.uniform(0, 20) for i in picks}
+                g = r.choice(radio)
+                tsec = float(r.choice([0.1, 1.0, 3.0, 20.0]) / sview.rate[g])
+                a = r.choice([2.0, 3.0, 0.5, 1e-6, 7.0])
+                desc = f"synthetic dataset ({sch['names'][:4]}…, half-lives {[f'{v!r} {u}' for v, u in sch['hl'][:3]]}…): X=Inventory({cx!r}), a={a!r}, t={tsec!r} s"
+                rep.case(("synthetic-laws", k_, repr(cx), a, tsec))
+                gen._count("synthetic-dataset-laws")
+                try:
+                    X = rd.Inventory(dict(cx), "num", True, ds)
+                    tot = sum(abs(F(v)) for v in X.contents.values())
+                    variants = {"a*X": a * X, "X*a": X * a, "X/(1/a)": X / (1.0 / a), "X+X": X + X, "X-X/2": X - X / 2.0, "X.decay": X.decay(tsec, "s")}
+                    for nm_, inv_ in variants.items():
+                        if inv_.decay_data is not ds:
+                            fail("dataset-binding", desc, f"{nm_} is bound to dataset {inv_.decay_data.dataset_name!r}, not to X's dataset")
+                            raise StopIteration
+                    ref = X.decay(tsec, "s").numbers()
+                    for nm_, fac in (("a*X", a), ("X*a", a), ("X+X", 2.0), ("X-X/2", 0.5)):
+                        got = variants[nm_].decay(tsec, "s").numbers()
+                        if list(got) != list(ref):
+                            fail("linearity", desc, f"({nm_}).decay has other nuclides than X.decay")
+                            break
+                        for n_ in ref:
+                            if abs(F(got[n_]) - F(fac) * F(ref[n_])) > 4 * TOL * F(fac) * tot + abs(F(got[n_])) / 2**48:
+                                fail("linearity", desc, f"({nm_}).decay(t)[{n_}] = {got[n_]!r}, {fac!r} x X.decay(t)[{n_}] = {fac * ref[n_]!r}")
+                                raise StopIteration
+                    two = X.decay(tsec / 4, "s").decay(3 * tsec / 4, "s").numbers()
+                    for n_ in ref:
+                        if abs(F(two[n_]) - F(ref[n_])) > 3 * TOL * tot * max(1, 1) + abs(F(ref[n_])) / 2**40:
+                            fail("time-additivity", desc, f"{n_}: split {two[n_]!r} vs single {ref[n_]!r}")
+                            break
+                except StopIteration:
+                    pass
+                except Exception as e:  # noqa: BLE001
+                    fail("laws on a synthetic dataset", desc, f"raised {type(e).__name__}: {e}")
+        finally:
+            synthetic.cleanup(path)
     rep.corr["input_distribution"].update(gen.dist)
     rep.notes["mismatches"] = bad
 
